@@ -1,0 +1,33 @@
+//go:build verif
+
+package pow
+
+// Verification hooks (build tag "verif" only): Mine and its goroutines report their synchronisation
+// events to an optional sink. Release-type actions (store, send, close, wg.Done) are reported before
+// they happen, acquire-type actions (a load that saw a value, a receive, Wait returning) after, so that
+// the order of the reports is a linearisation consistent with happens-before.
+
+const (
+	evSpawn = iota
+	evWatcherCtx
+	evWatcherClosing
+	evBatch
+	evSawDone
+	evStoreDone
+	evSend
+	evWgDone
+	evWaitReturned
+	evCloseResults
+	evCloseClosing
+	evRecv
+	evRecvNone
+)
+
+// VerifSink receives the events when set; it must be safe for concurrent use.
+var VerifSink func(kind int, worker uint64, value uint64)
+
+func verifEvent(kind int, worker uint64, value uint64) {
+	if sink := VerifSink; sink != nil {
+		sink(kind, worker, value)
+	}
+}
